@@ -30,6 +30,7 @@ from nrel.hive.state.driver_state.human_driver_state.human_driver_state import H
 from nrel.hive.state.driver_state.human_driver_state.human_driver_attributes import HumanDriverAttributes
 
 DAY = 86400
+CASE = int(os.environ.get("VF_CASE", "0"))
 
 
 class Tod(SymTod):
@@ -119,8 +120,11 @@ def _human(vid, available, sched):
     return HumanAvailable(attr) if available else HumanUnavailable(attr)
 
 
-def h_drv(T: int, dt: int, s0: int, e0: int, s1: int, e1: int, a0: bool, a1: bool) -> bool:
+def h_drv(T: int, dt: int, s0: int, e0: int, s1: int, e1: int, a0: bool, a1: bool, k0: int) -> bool:
     """
+    k0: what v0 is doing when its driver is updated -- 0 idle, 1 carrying a passenger (ServicingTrip), 2 charging at a
+    station, 3 on its way to a request: the shift applies whatever the activity
+    pre: 0 <= k0 <= 3
     pre: 0 <= T <= 2000000000 and 1 <= dt <= 3600
     pre: 0 <= s0 < 86400 and 0 <= e0 < 86400 and 0 <= s1 < 86400 and 0 <= e1 < 86400
     post: _
@@ -132,7 +136,16 @@ def h_drv(T: int, dt: int, s0: int, e0: int, s1: int, e1: int, a0: bool, a1: boo
     f0 = _closure(*_times(s0, e0))
     f1 = _closure(*_times(s1, e1))
     env, rec = A.env_with_recorder(A.ENV0._replace(schedules=immutables.Map({"sch0": f0, "sch1": f1})))
-    v0 = replace(A.V0, driver_state=_human("v0", av0, "sch0"))
+    if k0 != CASE % 4:
+        return True  # (one activity per condition: CASE)
+    st0 = None
+    for i, (kind, cell) in enumerate(((0, 0), (10, 2), (3, 0), (9, 0))):
+        if k0 == i:
+            st0 = A.make_state(A.VSpec("v0", kind, cell, plug="LEVEL_2"))
+            c0 = cell
+    if st0 is None:
+        return True
+    v0 = replace(A.V0, driver_state=_human("v0", av0, "sch0"), vehicle_state=st0, position=A.POS[c0])
     v1 = replace(A.V1, driver_state=_human("v1", av1, "sch1"), position=A.POS[3])
     v2 = A.V2
     sim = A.SIM0._replace(sim_time=mk_time(T), sim_timestep_duration_seconds=dt)
@@ -145,7 +158,7 @@ def h_drv(T: int, dt: int, s0: int, e0: int, s1: int, e1: int, a0: bool, a1: boo
     want1 = _in_shift(s1, e1, T % DAY)
     got0 = sim2.vehicles["v0"].driver_state.available
     got1 = sim2.vehicles["v1"].driver_state.available
-    note("drv", "v0", "on" if av0 else "off", "->", "on" if got0 else "off", "v1", "on" if av1 else "off", "->", "on" if got1 else "off")
+    note("drv", k0, "v0", "on" if av0 else "off", "->", "on" if got0 else "off", "v1", "on" if av1 else "off", "->", "on" if got1 else "off")
     if got0 != want0 or got1 != want1:
         return False
     events = [(r.report["vehicle_id"], r.report["schedule_event"]) for r in rec.reports if r.report_type.name == "DRIVER_SCHEDULE_EVENT"]
